@@ -36,10 +36,22 @@
 
 #if CPPUTEST_USE_MEM_LEAK_DETECTION
 
+static bool memLeakMutexIsHeld = false; /* only written while the detector's mutex is held */
+
 class MemLeakScopedMutex
 {
 public:
-    MemLeakScopedMutex() : lock(MemoryLeakWarningPlugin::getGlobalDetector()->getMutex()) { }
+    MemLeakScopedMutex() : lock(MemoryLeakWarningPlugin::getGlobalDetector()->getMutex()) { memLeakMutexIsHeld = true; }
+    ~MemLeakScopedMutex() { memLeakMutexIsHeld = false; }
+
+    /* A misuse report leaves the locked scope by longjmp, which skips the destructor: give the lock back first. */
+    static void releaseBeforeFailing()
+    {
+        if (memLeakMutexIsHeld) {
+            memLeakMutexIsHeld = false;
+            MemoryLeakWarningPlugin::getGlobalDetector()->getMutex()->Unlock();
+        }
+    }
 private:
     ScopedMutexLock lock;
 };
@@ -545,6 +557,9 @@ public:
     virtual void fail(char* fail_string) CPPUTEST_OVERRIDE
     {
         UtestShell* currentTest = UtestShell::getCurrent();
+#if CPPUTEST_USE_MEM_LEAK_DETECTION
+        MemLeakScopedMutex::releaseBeforeFailing();
+#endif
         currentTest->failWith(FailFailure(currentTest, currentTest->getName().asCharString(), currentTest->getLineNumber(), fail_string), UtestShell::getCurrentTestTerminatorWithoutExceptions());
     } // LCOV_EXCL_LINE
 };
